@@ -96,6 +96,29 @@ def opPut (cfg : Cfg) (it : Bits.IT) (off len value : Nat) (buf : List UInt8) : 
 def opParse (cfg : Cfg) (it : Bits.IT) (off len : Nat) (buf : List UInt8) : String :=
   resStr (fun r => s!"{r.1} {r.2}") (Bits.parse cfg it (natBytes buf) off len)
 
+/-- `PARSESEQ off k1:w1,k2:w2,... hex`: ONE parser reads the fields in turn (64-bit carriers; kind u / i / s);
+the answer lists the values and the final cursor, or the values so far and the error (the cursor of a failed
+read does not move). History inside one `Parser` (look-ahead, cached bits) shows only here. -/
+def parseSeq (cfg : Cfg) (buf : List Nat) : Nat → List (Bits.Kind × Nat) → List String → String
+  | off, [], acc => " ".intercalate (acc.reverse ++ [toString off])
+  | off, (k, w) :: rest, acc =>
+    match Bits.parse cfg ⟨k, 64⟩ buf off w with
+    | .ok (v, off') => parseSeq cfg buf off' rest (toString v :: acc)
+    | .err e => " ".intercalate (acc.reverse ++ ["ERR " ++ e.name, toString off])
+    | .panic _ => "PANIC"
+
+/-- `PUTSEQ off hex k:w:v,...`: ONE assembler writes the fields in turn -/
+def putSeq (cfg : Cfg) : List Nat → Nat → List (Bits.Kind × Nat × Nat) → String
+  | buf, off, [] => hexOrDash (bytesNat buf) ++ s!" {off}"
+  | buf, off, (k, w, v) :: rest =>
+    match Bits.put cfg ⟨k, 64⟩ buf off v w with
+    | .ok (buf', off') => putSeq cfg buf' off' rest
+    | .err e => hexOrDash (bytesNat buf) ++ s!" {off} ERR " ++ e.name
+    | .panic _ => "PANIC"
+
+def parseKindLetter : String → Option Bits.Kind
+  | "u" => some .u | "i" => some .i | "s" => some .sm | _ => none
+
 def findDf (id : String) : Option Schema.DfSpec := Gen.dfTable.find? (·.id == id)
 
 def zeroBuf : List Nat := List.replicate 16 0
@@ -253,6 +276,18 @@ def handleCfg (cfg : Cfg) (toks : List String) : String :=
     match parseKind k, w.toNat?, off.toNat?, skip.toNat?, len.toNat?, bytesOfHex h with
     | some k, some w, some off, some skip, some len, some d => opParse cfg ⟨k, w⟩ (off + skip) len d
     | _, _, _, _, _, _ => "BAD-OP"
+  | ["PARSESEQ", off, fs, h] =>
+    match off.toNat?, (fs.splitOn ",").mapM (fun f => match f.splitOn ":" with
+        | [k, w] => match parseKindLetter k, w.toNat? with | some k, some w => some (k, w) | _, _ => none
+        | _ => none), bytesOfHex h with
+    | some off, some fl, some d => parseSeq cfg (natBytes d) off fl []
+    | _, _, _ => "BAD-OP"
+  | ["PUTSEQ", off, h, fs] =>
+    match off.toNat?, bytesOfHex h, (fs.splitOn ",").mapM (fun f => match f.splitOn ":" with
+        | [k, w, v] => match parseKindLetter k, w.toNat?, v.toNat? with | some k, some w, some v => some (k, w, v) | _, _, _ => none
+        | _ => none) with
+    | some off, some d, some fl => putSeq cfg (natBytes d) off fl
+    | _, _, _ => "BAD-OP"
   | ["PARSE", k, w, off, len, h] =>
     match parseKind k, w.toNat?, off.toNat?, len.toNat?, bytesOfHex h with
     | some k, some w, some off, some len, some d => opParse cfg ⟨k, w⟩ off len d
